@@ -103,6 +103,10 @@ def check_alg_tables(ctx, rid):
                 hv = [x for x in called[0][1] if x.k == "variant"]
                 good = bool(hv) and hv[0].v == exp[1]
             ctx.require(rid, good, "%s:%s" % (sg.file, sg.line), "%s -> %s%s (got %s)" % (a, exp[0], "(%s)" % exp[1] if exp[1] else "", called), [KEYS + "::sign", a])
+            if good:
+                last = called[0][1][-1] if called[0][1] else None
+                ctx.require(rid, last is not None and last.k == "unknown" and last.v == "DATA", "%s:%s" % (sg.file, sg.line),
+                            "%s: the bytes signed are the caller's message, unchanged (got %r)" % (a, last), [KEYS + "::sign", "message", a])
     rs = prog.must_body(KEYS + "::sign_rsa")
     srs = [c for c in sg.calls_to(KEYS + "::sign_rsa")]
     for c in srs:
